@@ -576,5 +576,8 @@ func (h *NativeHashMapIterator[K, V]) NextValue() (value.Value, value.Value) {
 }
 
 func (h *NativeHashMapIterator[K, V]) Reset() {
+	// start over on the current content of the collection
 	h.index = 0
+	h.version = h.HashMap.version
+	h.captureSnapshot()
 }
